@@ -150,6 +150,9 @@ def explore(ctx):
     cli = [(['-o', 'jsn'], False), (['-o', ''], False), (['-o', 'format='], False), (['-o', 'format'], False), (['--format', ''], False),
            (['-o', 'format={'], False), (['-o', 'format=}x'], False), (['--format', '{a'], False), (['-o', 'json', '--format', '{a}'], False),
            (['-o', 'logfmt', '-m', 'x'], False), (['-o', 'json=1'], False), (['-o', 'legacy='], True),
+           # placeholders whose spec cannot apply to a field's text are malformed format strings too
+           (['-o', 'format={a:x}'], False), (['-o', 'format={a:05}'], False), (['--format', '{a:+}'], False), (['-o', 'format={a:#}'], False),
+           (['-o', 'format={a:,}'], False), (['-o', 'format={a:=5}'], False), (['-o', 'format=x {a:e} y'], False), (['-o', 'format={a:<5}|{a:>5}|{a:^5}|{a:.1}'], True),
            (['-o', 'json'], True), (['-o', 'logfmt'], True), (['-o', 'legacy'], True), (['-o', 'format={a}'], True), (['--format', '{a} {b}'], True), (['-o', 'format={{}}'], True)]
     for args, ok in cli:
         evals += 1
